@@ -102,6 +102,9 @@ type vkConfigOpts struct {
 	CarURI    string            // default: the local CAR
 	Overrides map[string]string // index role -> path
 	NoGsfa    bool
+	// LegacyCidToOffset: path of a deprecated (size-less) cid-to-offset index; the config then names it under
+	// indexes.cid_to_offset and leaves cid_to_offset_and_size unset (Config.IsDeprecatedIndexes()).
+	LegacyCidToOffset string
 }
 
 // writeConfig writes an epoch config YAML and returns its path.
@@ -118,7 +121,11 @@ func (e *vEpoch) writeConfig(o vkConfigOpts) string {
 	}
 	var b strings.Builder
 	fmt.Fprintf(&b, "version: 1\nepoch: %d\ndata:\n  car:\n    uri: %q\nindexes:\n", e.Truth.Epoch, car)
-	fmt.Fprintf(&b, "  cid_to_offset_and_size:\n    uri: %q\n", get("cid_to_offset_and_size", e.Paths.CidToOffsetAndSize))
+	if o.LegacyCidToOffset != "" {
+		fmt.Fprintf(&b, "  cid_to_offset:\n    uri: %q\n", o.LegacyCidToOffset)
+	} else {
+		fmt.Fprintf(&b, "  cid_to_offset_and_size:\n    uri: %q\n", get("cid_to_offset_and_size", e.Paths.CidToOffsetAndSize))
+	}
 	fmt.Fprintf(&b, "  slot_to_cid:\n    uri: %q\n", get("slot_to_cid", e.Paths.SlotToCid))
 	fmt.Fprintf(&b, "  sig_to_cid:\n    uri: %q\n", get("sig_to_cid", e.Paths.SignatureToCid))
 	fmt.Fprintf(&b, "  sig_exists:\n    uri: %q\n", get("sig_exists", e.Paths.SignatureExists))
